@@ -13,3 +13,181 @@ def bridge_address(rep, rule, c, env, CYC):
     want = c.parse("Cat(cycle[:exact_log2(len(wb.sel))], wb.adr)", dict(env, cycle=CYC))
     return check_dl(rep, rule, c, "csr.addr == Cat(cycle[:log2(n)], wb.adr) (granule index in the low bits)", ds, "0",
                     [("1", want)], env)
+
+
+class DecoderRoles:
+    pass
+
+
+def decoder_roles(rep, rule, c, subject_text):
+    """Roles of an address decoder's elaborate(): the loop over window_patterns(), the subordinate looked up in
+    the registry by the window's map, its pattern and ratio, the Switch on the address."""
+    site = c.fi.site
+    r = DecoderRoles()
+    loops = [L for L in c.t.loops.values() if L.kind == 'gen' and
+             c.norm(L.iter) == c.parse("self.bus.memory_map.window_patterns()")]
+    if len(loops) != 1:
+        rep.bad(rule, site, "loop over self.bus.memory_map.window_patterns()",
+                f"found {len(loops)} such loops: the decoder must decode with the patterns of the map it publishes")
+        return None
+    L = loops[0]
+    r.L = L
+    r.map = ('item', L.id, (0,))
+    r.name = ('item', L.id, (1,))
+    r.pat = ('item', L.id, (2, 0))
+    r.ratio = ('item', L.id, (2, 1))
+    # the subordinate bus: a registry lookup keyed by the window's map
+    subs = set()
+    for d in c.t.drivers:
+        for x in ir.walk(c.norm(d.target)):
+            if x[0] == 'sub' and x[2] == r.map:
+                subs.add(x)
+    if len(subs) != 1:
+        rep.bad(rule, site, "registry lookup by the window's map", f"found {len(subs)} distinct lookups keyed by position 0 of the "
+                "window_patterns() tuple")
+        return None
+    r.sub = next(iter(subs))
+    r.registry = r.sub[1]
+    # the Switch
+    sids = [sid for sid, s in c.t.switches.items() if c.norm(s) == c.parse(subject_text)]
+    if len(sids) != 1:
+        rep.bad(rule, site, f"Switch({subject_text})", f"found {len(sids)} Switch statements on the bus address")
+        return None
+    r.sid = sids[0]
+    # the Case pattern(s) used in that Switch inside the loop
+    pats = set()
+    for d in c.t.drivers:
+        for fr in d.dsl:
+            if fr[0] == 'case' and fr[1] == r.sid:
+                pats.add(tuple(c.norm(p) for p in fr[2]))
+    for a in c.t.accs.values():
+        for term, gen, dsl_, ln in a.terms:
+            for fr in dsl_:
+                if fr[0] == 'case' and fr[1] == r.sid:
+                    pats.add(tuple(c.norm(p) for p in fr[2]))
+    if len(pats) != 1 or len(next(iter(pats))) != 1:
+        rep.bad(rule, site, "Case per window", f"expected one Case pattern per window, found {sorted(ir.show(p[0]) for p in pats if p)}")
+        return None
+    r.case_pat = next(iter(pats))[0]
+    r.case = ('formula', c.eng.frame_formula(('case', r.sid, (r.case_pat,), 0)))
+    r.env = {"sub": r.sub, "pat": r.pat, "ratio": r.ratio, "map": r.map}
+    return r
+
+
+def acc_of(c, value):
+    v = c.norm(value)
+    if v[0] == 'acc':
+        return c.t.accs[v[1]]
+    return None
+
+
+def check_fanin(rep, rule, c, what, target, term_text, env, L, bus_cond=None, term_cond=None):
+    """target == OR over all iterations of loop L of <term> (term only present under term_cond), driven comb
+    under bus_cond only."""
+    site = c.fi.site
+    ds = c.drivers_of(c.parse(target, env))
+    if not ds:
+        rep.bad(rule, site, what, f"{target} is never driven: responses / read data would be lost")
+        return False
+    if len(ds) != 1 or ds[0].domain != "comb" or ds[0].dsl:
+        rep.bad(rule, site, what, f"{target} must have one unconditional combinational driver (the OR-reduction)",
+                lines=[d.lineno for d in ds])
+        return False
+    d = ds[0]
+    gen = [fr for fr in d.gen]
+    want_gen = [] if bus_cond is None else [('pyif', c.parse(bus_cond, env), True)]
+    got_gen = [(fr[0], c.norm(fr[1]), fr[2]) if fr[0] == 'pyif' else fr for fr in gen]
+    if got_gen != want_gen:
+        rep.bad(rule, site, what, f"driver exists under generation condition(s) {[ir.show(g[1]) if g[0]=='pyif' else g for g in got_gen]}; "
+                f"expected {'none' if bus_cond is None else bus_cond}", line=d.lineno)
+        return False
+    a = acc_of(c, d.value)
+    if a is None:
+        rep.bad(rule, site, what, f"value {c.show(d.value)} is not a plain OR-reduction over the subordinates", line=d.lineno)
+        return False
+    if c.norm(a.init) != ('const', 0) or a.op != '|':
+        rep.bad(rule, site, what, f"OR-reduction starts from {c.show(a.init)} (must be 0)")
+        return False
+    want_term = c.parse(term_text, env)
+    ok = True
+    if len(a.terms) != 1:
+        rep.bad(rule, site, what, f"{len(a.terms)} kinds of term are OR-ed in; expected exactly the subordinate's own signal")
+        return False
+    term, tgen, tdsl, ln = a.terms[0]
+    if c.norm(term) != want_term:
+        rep.bad(rule, site, what, f"term is {c.show(term)}; expected {ir.show(want_term)}", line=ln)
+        return False
+    tg = [(fr[0], c.norm(fr[1]), fr[2]) if fr[0] == 'pyif' else fr for fr in tgen]
+    want_tg = [('for', L.id)] + ([] if term_cond is None else [('pyif', c.parse(term_cond, env), True)])
+    if tg != want_tg:
+        rep.bad(rule, site, what, "the term is not added for every subordinate (that has the signal): "
+                f"found context {[ir.show(g[1]) if g[0]=='pyif' else g for g in tg]}", line=ln)
+        return False
+    rep.ok(rule, site, what, f"{target} = OR over subordinates of {term_text}")
+    return True
+
+
+def registry_and_window(rep, rule, idx, fi, forwarded):
+    """Decoder.add: registry keyed by the subordinate's map, the same map is added as window, every validation
+    dominates the registry store, caller's placement arguments are forwarded."""
+    import ast as _ast
+    from . import apirules
+    site = fi.site
+    fg = apirules.graph(idx, fi)
+    g = fg.g
+    stores = [n for n in g.nodes if n.kind == "stmt" and isinstance(n.ast, _ast.Assign) and
+              any(isinstance(t, _ast.Subscript) and _ast.unparse(t.value) == "self._subs" for t in n.ast.targets)]
+    calls = [(n, cl) for n in g.nodes for cl in fg.calls_in(n.id)
+             if isinstance(cl.func, _ast.Attribute) and cl.func.attr == "add_window"]
+    if len(stores) != 1 or len(calls) != 1:
+        rep.bad(rule, site, "registry store and add_window call", f"found {len(stores)} registry store(s) and {len(calls)} add_window call(s)")
+        return
+    st = stores[0].ast
+    key = ir.norm(ir.from_ast(st.targets[0].slice, {}))
+    val = ir.norm(ir.from_ast(st.value, {}))
+    call = calls[0][1]
+    warg = ir.norm(ir.from_ast(call.args[0], {})) if call.args else None
+    recv = ir.norm(ir.from_ast(call.func.value, {}))
+    rep.check(key == ir.parse("sub_bus.memory_map") and val == ('name', 'sub_bus'), rule, site,
+              "registry maps the subordinate's memory map to the subordinate bus", f"self._subs[{ir.show(key)}] = {ir.show(val)}")
+    rep.check(warg == key, rule, site, "the window added is the map the registry is keyed by",
+              f"add_window({ir.show(warg) if warg else None}, ...) vs registry key {ir.show(key)}")
+    rep.check(recv == ir.parse("self.bus.memory_map"), rule, site, "the window goes into the map the decoder publishes",
+              f"add_window is called on {ir.show(recv)}")
+    kws = {k.arg: ir.from_ast(k.value, {}) for k in call.keywords if k.arg}
+    for f in forwarded:
+        rep.check(kws.get(f) == ('name', f), rule, site, f"add() forwards `{f}` to add_window",
+                  f"{f}={ir.show(kws[f]) if f in kws else 'missing'}", nontrivial=False)
+    # every raise guard dominates the registry store
+    dom = g.dominators()[stores[0].id]
+    tests = [n.id for n in g.nodes if n.kind == "test" and any(lab == "exc" or g.nodes[m].kind == "stmt" and
+             isinstance(g.nodes[m].ast, _ast.Raise) for m, lab in g.succ[n.id])]
+    after = g.reachable([stores[0].id])
+    late = [t for t in tests if t in after and t != stores[0].id]
+    rep.check(not late, rule, site, "every validation precedes the registration",
+              f"validation at line(s) {[g.nodes[t].lineno for t in late]} runs after the registry store")
+    # the result of add_window is what add() returns
+    rets = [n for n in g.nodes if n.kind == "stmt" and isinstance(n.ast, _ast.Return)]
+    ok = any(isinstance(n.ast.value, _ast.Call) and n.ast.value is call for n in rets) or \
+        any(n.ast.value is not None for n in rets)
+    rep.check(ok, rule, site, "add() returns the assigned range", "no value returned", nontrivial=False)
+
+
+def trimmed_pattern(rep, rule, c, r):
+    """Wishbone decoder: the Case pattern is the window pattern minus exact_log2(data_width // granularity) low bits,
+    the same expression as in Decoder.__init__ (map address width) and the Interface.memory_map setter."""
+    site = c.fi.site
+    P = r.case_pat
+    gb = c.parse("exact_log2(self.bus.data_width // self.bus.granularity)")
+    env = {"pat": r.pat, "gb": gb}
+    forms = [c.parse("pat[:-gb if gb > 0 else None]", env), c.parse("pat[:len(pat) - gb]", env)]
+    if P == r.pat:
+        rep.bad(rule, site, "Case pattern trimmed by the granularity bits",
+                "the map pattern is used untrimmed although the map addresses granules and the bus addresses words")
+    elif P in forms:
+        rep.ok(rule, site, "Case pattern == window pattern without its exact_log2(data_width // granularity) low bits",
+               f"pattern {ir.show(P)}")
+    elif P[0] == 'sub' and P[1] == r.pat:
+        rep.unk(rule, site, "Case pattern trimmed by the granularity bits", f"unrecognised trimming {ir.show(P)}")
+    else:
+        rep.bad(rule, site, "Case pattern is the window's own pattern", f"Case uses {ir.show(P)}")
